@@ -179,7 +179,13 @@ def history_runs(ctx):
     from sqlparse import lexer, tokens as T, keywords
     from sqlparse.exceptions import SQLParseError
     rng = ctx.rng
-    base = [(sqlparse.split(p), [streams.sexp(s) for s in sqlparse.parse(p)], sqlparse.format(p, reindent=True, keyword_case='upper')) for p in PROBES]
+    BPROBES = [b'select "\xc3\xa9" from t; select 2', 'select \u00e9 from \u00fc'.encode('latin-1'), b'select 1 -- \xe9\n; x']    # bytes without an encoding: utf-8, else latin-1
+    def probe():
+        out = [(sqlparse.split(p), [streams.sexp(s) for s in sqlparse.parse(p)], sqlparse.format(p, reindent=True, keyword_case='upper')) for p in PROBES]
+        out += [(sqlparse.split(b), [streams.sexp(s) for s in sqlparse.parse(b)], sqlparse.format(b, keyword_case='upper')) for b in BPROBES]
+        out.append([(str(tt), v) for tt, v in lexer.tokenize(BPROBES[1])])
+        return out
+    base = probe()
     g = grammar.Gen(rng)
     def op_parse(): sqlparse.parse(gen.mixed(rng))
     def op_split(): sqlparse.split(gen.mixed(rng))
@@ -218,16 +224,56 @@ def history_runs(ctx):
         if rng.random() < 0.5:
             lx.clear()
         lx.default_initialization()
-    ops = [op_parse, op_split, op_format, op_abandon, op_raise_opt, op_raise_type, op_deep, op_reconfig]
+    def op_bytes_enc():
+        # bytes input with an explicit encoding (and one that fails to decode): nothing about it may influence later calls
+        enc = rng.choice(['latin-1', 'cp1251', 'utf-16', 'utf-8', 'cp1252', 'shift_jis'])
+        data = rng.choice(['select "é" from t; select \'ß\'', 'select 1 -- Ünï\n; select 2', 'select \u0436 from \u0442']).encode(enc, 'replace')
+        f = rng.choice([sqlparse.parse, sqlparse.split, lambda d, encoding: sqlparse.format(d, encoding=encoding, keyword_case='upper')])
+        try:
+            f(data, encoding=enc)
+        except (UnicodeDecodeError, LookupError):
+            pass
+        if rng.random() < 0.3:
+            try:
+                sqlparse.split(b'select \xff\xfe', encoding='ascii')
+            except UnicodeDecodeError:
+                ctx.count('op_bytes_enc_raised')
+    def op_interleave():
+        # two lazily consumed streams advanced alternately, and an eager call in between: each must yield its own statements
+        a = sqlparse.parsestream(io.StringIO('select a1; select a2; select a3'))
+        b = sqlparse.parsestream('update b1 set x = 1; update b2 set x = 2')
+        got = [str(next(a)).strip(), str(next(b)).strip()]
+        sqlparse.split(gen.mixed(rng))
+        got += [str(next(a)).strip(), str(next(b)).strip(), str(next(a)).strip()]
+        want = ['select a1;', 'update b1 set x = 1;', 'select a2;', 'update b2 set x = 2', 'select a3']
+        if got != want:
+            raise AssertionError(('interleaved parsestream generators disturbed each other', got, want))
+        ta = lexer.tokenize('select aa, bb from cc')
+        tb = lexer.tokenize('delete from dd where ee = 1')
+        mixed = []
+        for _ in range(4):
+            mixed.append(next(ta)[1]); mixed.append(next(tb)[1])
+        if ''.join(mixed[0::2]) != 'select aa,' or ''.join(mixed[1::2]) != 'delete from ':
+            raise AssertionError(('interleaved tokenize generators disturbed each other', mixed))
+    ops = [op_parse, op_split, op_format, op_abandon, op_raise_opt, op_raise_type, op_deep, op_reconfig, op_bytes_enc, op_interleave]
     for h in range(ctx.n(60, 1500)):
         hist = [rng.choice(ops) for _ in range(rng.randint(1, 8))]
-        for o in hist:
-            o()
+        try:
+            for o in hist:
+                o()
+        except AssertionError as e:
+            ctx.fail(str(e.args[0][0]), [o.__name__ for o in hist], observed=str(e.args[0][1])[:300], required='each stream yields its own statements/tokens')
+            break
+        except Exception as e:      # incl. StopIteration from a stream that ended early
+            ctx.fail('a call of the history raised %s (no call of these histories may raise beyond what the op itself expects)' % type(e).__name__,
+                     [o.__name__ for o in hist], observed=repr(e)[:300], required='no exception')
+            lexer.Lexer.get_default_instance().default_initialization()
+            break
         ctx.evaluations += 1
         ctx.nontrivial.add(tuple(o.__name__ for o in hist))
         for o in hist:
             ctx.count('op:' + o.__name__)
-        now = [(sqlparse.split(p), [streams.sexp(s) for s in sqlparse.parse(p)], sqlparse.format(p, reindent=True, keyword_case='upper')) for p in PROBES]
+        now = probe()
         if now != base:
             ctx.fail('results of probe calls depend on the call history', [o.__name__ for o in hist], observed=str(now)[:300], required=str(base)[:300])
             lexer.Lexer.get_default_instance().default_initialization()
